@@ -37,6 +37,7 @@ ITEM_KINDS = {"variable": ["variable"], "bound": ["bound"], "function": ["functi
 POSSIBLE_ITEMS = {"module": {"variable", "type", "interface", "absinterface", "subroutine", "function", "common"},
                   "program": {"variable", "type", "interface", "absinterface", "subroutine", "function", "common"},
                   "proc": {"variable", "type", "interface", "absinterface", "subroutine", "function", "common"},
+                  "blockdata": {"variable", "type", "common"},
                   "type": {"variable", "bound", "final", "constructor"}}
 CONTEXT_ABLE = {"variable", "type", "constructor", "interface", "absinterface", "subroutine", "function", "final", "bound", "modproc", "common"}
 
@@ -80,6 +81,10 @@ def build_model(seed):
     ent("only_b", "proc", mb, "subroutine")
     ent("callback", "absint", ma, "absinterface")
     ent(f"lprog{sx}", "program", fb)
+    # a block data unit that defines a derived type: the type is a project-wide link target with a page of its own
+    bd = ent(f"lbd{sx}", "blockdata", fb)
+    bt = ent("bdt", "type", bd, "type")
+    ent("bcomp", "variable", bt, "variable")
     fx = ent(f"lnotes{sx}.inc", "file") if seed % 2 else None  # a file of an extra file type is a link target like any source file
     model = {"E": E, "fa": fa, "fb": fb, "ma": ma, "mb": mb, "sx": sx, "fx": fx}
     return model, rng
@@ -93,7 +98,7 @@ def lookup(model, ctx, name, q, child, cq):
     """Documented lookup. Returns set of acceptable entity ids (empty = absent)."""
     E = model["E"]
     allents = list(E.values())
-    top_level = [e for e in allents if e.kind in ("file", "module", "program", "type", "proc", "absint", "namelist")]
+    top_level = [e for e in allents if e.kind in ("file", "module", "program", "type", "proc", "absint", "namelist", "blockdata")]
 
     def match_top(e, q):
         if q is None:
@@ -163,15 +168,15 @@ def spellings(model, target, rng):
     """All documented spellings that should reach `target` from a context where it is the nearest candidate."""
     refs = []
     E = model["E"]
-    if target.kind in ("file", "module", "program", "absint") or (target.kind in ("type", "proc") and target.parent.kind == "module"):
+    if target.kind in ("file", "module", "program", "absint", "blockdata") or (target.kind in ("type", "proc") and target.parent.kind in ("module", "blockdata")):
         quals = [None] + TOP_KINDS[target.kind]
         if target.kind == "proc":
             quals = [None, "procedure", "proc", target.sub]
         for q in quals:
             refs.append((target.name, q, None, None))
-        if target.parent is not None and target.parent.kind == "module":
+        if target.parent is not None and target.parent.kind in ("module", "blockdata"):
             itemq = {"proc": target.sub, "type": "type", "absint": "absinterface"}[target.kind]
-            for q1 in (None, "module"):
+            for q1 in (None, "module" if target.parent.kind == "module" else "block"):
                 for q2 in (None, itemq):
                     refs.append((target.parent.name, q1, target.name, q2))
     else:
@@ -221,9 +226,22 @@ def plan_refs(model, rng, thorough):
         return out
 
     for e in E.values():
-        if e.kind in ("module", "type", "proc", "program", "file", "bound") or (e.kind == "variable" and e.parent.kind == "type"):
+        if e.kind in ("module", "type", "proc", "program", "file", "bound", "blockdata") or (e.kind == "variable" and e.parent.kind == "type"):
             e.refs = battery(e, 10 if not thorough else 30)
             sites.append({"kind": "doc:" + e.kind, "ent": e.eid, "refs": e.refs})
+    # an explicit `summary:` in an entity's own metadata: its references are the entity's (own contents first), although the text is shown
+    # on the parent's page and in the lists; bare names of own contents next to names that exist elsewhere
+    for e in E.values():
+        if e.kind in ("type", "proc") and e.parent.kind == "module" and rng.random() < 0.6:
+            refs = []
+            own = [c for c in e.children if c.kind != "arg"]
+            names = [(c.name, None) for c in own] + [(c.name, c.sub) for c in own if c.sub in CONTEXT_ABLE] + [("count", None), ("area", None), ("nosuchthing", None)]
+            for nm, q in rng.sample(names, min(len(names), 4)):
+                k[0] += 1
+                exp, fallback = lookup(model, e, nm, q, None, None)
+                refs.append({"k": k[0], "ref": fmt((nm, q, None, None)), "expected": sorted(exp), "fallback_to_parent": fallback, "code": False})
+            e.summary_refs = refs
+            sites.append({"kind": "doc_summary:" + e.kind, "ent": None, "refs": refs})
     for sk in ("project_file", "summary", "page_top", "page_nested"):
         sites.append({"kind": sk, "ent": None, "refs": battery(None, 10 if not thorough else 30)})
     # references to dummy arguments (of a module procedure, of a procedure contained in another one, of a procedure declared in an
@@ -258,6 +276,8 @@ def render(model, sites):
 
     def doc(e):
         lines = [f"!! {e.tracer} first paragraph"]
+        if getattr(e, "summary_refs", None):
+            lines.insert(0, "!! summary: " + ref_text(e.summary_refs))
         if e.eid in by_ent:
             # keep the references in the first paragraph so that summaries on parent/list pages show them too
             lines.append("!! " + ref_text(by_ent[e.eid]["refs"]))
@@ -297,6 +317,9 @@ def render(model, sites):
         if m is model["mb"]:
             pg = [e for e in E.values() if e.kind == "program"][0]
             L += [f"program {pg.name}"] + doc(pg) + [f"use {model['ma'].name}", "implicit none", "call setup()", f"end program {pg.name}"]
+            bd = [e for e in E.values() if e.kind == "blockdata"][0]
+            bt = bd.children[0]
+            L += [f"block data {bd.name}"] + doc(bd) + ["type :: bdt", "sequence"] + doc(bt) + ["integer :: bcomp"] + doc(bt.children[0]) + ["end type bdt", "type(bdt) :: bdv", f"common /lcb{sx}/ bdv", f"end block data {bd.name}"]
         files[fobj.name] = "\n".join(L) + "\n"
     if model.get("fx") is not None:
         files[model["fx"].name] = "\n".join(doc(model["fx"]) + ["! plain comment", "some text of another file type"]) + "\n"
